@@ -206,7 +206,11 @@ func genSched(cfg Config, emit func(string, bool, []string)) {
 				// mark the initializer done (registered on the lowest table of an earlier writer; may be a different table: then it is a no-op)
 				mark = strconv.Itoa(tabs[0])
 			}
-			add("writer %s %s %s %s", strings.Join(req, ","), map[bool]string{true: "commit", false: "abort"}[commit], mark, reg)
+			modeS := map[bool]string{true: "commit", false: "abort"}[commit]
+			if r.IntN(8) == 0 {
+				modeS += "-anon"
+			}
+			add("writer %s %s %s %s", strings.Join(req, ","), modeS, mark, reg)
 			sim.threads = append(sim.threads, &simThread{kind: "writer", tables: tabs, commit: commit, labels: writerLabels(tabs, commit)})
 		}
 		add("watches")
@@ -303,31 +307,33 @@ type schedEvent struct {
 }
 
 type schedThread struct {
-	kind         string
-	req          []int
-	dup          bool
-	tables       []int
-	commit       bool
-	mark         []int
-	reg          []int
-	resume       chan struct{}
-	done         bool
-	goid         int64
-	result       statedb.ReadTxn
-	seenRev      map[int]uint64
-	seenCnt      map[int]int
-	locked       bool // between wtxn-locked and the last after-unlock
-	parked       string
-	handle       statedb.WriteTxn
-	specAtCommit string
-	started      bool
-	mustSee      int         // tables registered when the last table lock was taken
-	specAtLoad   []specTable // committed state when the root was loaded
-	otherRev     map[int]uint64
-	otherCnt     map[int]int
-	otherInit    map[int]string // Initialized / PendingInitializers of unheld tables as first seen through the txn
-	initFlips    []string
-	didMark      []int // tables whose initializer this transaction marked done
+	kind             string
+	req              []int
+	dup              bool
+	tables           []int
+	commit           bool
+	mark             []int
+	reg              []int
+	resume           chan struct{}
+	done             bool
+	goid             int64
+	result           statedb.ReadTxn
+	seenRev          map[int]uint64
+	seenCnt          map[int]int
+	locked           bool // between wtxn-locked and the last after-unlock
+	parked           string
+	handle           statedb.WriteTxn
+	specAtCommit     string
+	started          bool
+	mustSee          int         // tables registered when the last table lock was taken
+	specAtLoad       []specTable // committed state when the root was loaded
+	otherRev         map[int]uint64
+	otherCnt         map[int]int
+	otherInit        map[int]string // Initialized / PendingInitializers of unheld tables as first seen through the txn
+	initFlips        []string
+	didMark          []int        // tables whose initializer this transaction marked done
+	anon             bool         // the write transaction is opened through DB.NewHandle("")
+	otherInitialized map[int]bool // Initialized() of the tables it does not hold, read through the transaction
 }
 
 type specTable struct {
@@ -555,11 +561,20 @@ func (e *schedExec) threadBody(tid int) {
 	for _, t := range th.req {
 		metas = append(metas, e.tables[t])
 	}
-	wtxn := e.db.WriteTxn(metas...)
+	var wtxn statedb.WriteTxn
+	if th.anon {
+		// through a handle without a name (the name only labels metrics)
+		wtxn = e.db.NewHandle("").WriteTxn(metas...)
+	} else {
+		wtxn = e.db.WriteTxn(metas...)
+	}
 	th.handle = wtxn // keep it reachable: an unfinished handle's finalizer panics
 	// every table registered before the locks were taken is readable through the
 	// transaction, at the state the root had when it was loaded
 	th.otherRev, th.otherCnt, th.otherInit = map[int]uint64{}, map[int]int{}, map[int]string{}
+	e.mu.Lock()
+	th.otherInitialized = map[int]bool{}
+	e.mu.Unlock()
 	for t := 0; t < th.mustSee && t < len(e.tables); t++ {
 		if slices.Contains(th.tables, t) {
 			continue
@@ -571,6 +586,9 @@ func (e *schedExec) threadBody(tid int) {
 		}
 		ini, _ := tbl.Initialized(wtxn)
 		th.otherInit[t] = fmt.Sprintf("%v %v", ini, tbl.PendingInitializers(wtxn))
+		e.mu.Lock()
+		th.otherInitialized[t] = ini
+		e.mu.Unlock()
 	}
 	for _, t := range th.tables {
 		tbl := e.tables[t]
@@ -791,7 +809,8 @@ func (e *schedExec) Do(o *Out, f []string) string {
 				th.tables = append(th.tables, t)
 			}
 			sort.Ints(th.tables)
-			th.commit = f[2] == "commit"
+			th.commit = strings.HasPrefix(f[2], "commit")
+			th.anon = strings.HasSuffix(f[2], "-anon")
 			th.mark, th.reg = parseInts(f[3]), parseInts(f[4])
 		}
 		e.threads = append(e.threads, th)
@@ -982,6 +1001,15 @@ func (e *schedExec) onEvent(o *Out, tid int, th *schedThread, prev, label string
 			if t < len(th.specAtLoad) && (rev != th.specAtLoad[t].rev || th.otherCnt[t] != th.specAtLoad[t].cnt) {
 				o.Fail("C05", "writer-reads-other-table-wrongly", nil, fmt.Sprintf("thread %d reads table %d (not held) through its write transaction as %d @%d, the committed state when it loaded the root was %d @%d", tid, t, th.otherCnt[t], rev, th.specAtLoad[t].cnt, th.specAtLoad[t].rev))
 				o.Fail("C02", "write-txn-view-mixes-two-committed-states", nil, fmt.Sprintf("thread %d reads table %d (not held) through its write transaction as %d @%d, the committed state when it loaded the root was %d @%d", tid, t, th.otherCnt[t], rev, th.specAtLoad[t].cnt, th.specAtLoad[t].rev))
+			}
+		}
+		// the initializer state of the tables it does not hold is the committed one of the moment the
+		// transaction was granted (its root load), not an earlier one
+		for t, ini := range th.otherInitialized {
+			if t < len(th.specAtLoad) && ini == th.specAtLoad[t].initPending {
+				o.Fail("C19", "write-txn-sees-stale-initializer-state", map[string]string{"reports_initialized": strconv.FormatBool(ini)},
+					fmt.Sprintf("thread %d reads table %d (not held) through its write transaction as initialized=%v; by the transactions committed when it was granted the initializer was %s", tid, t, ini,
+						map[bool]string{true: "registered and not yet marked done", false: "marked done (or never registered)"}[th.specAtLoad[t].initPending]))
 			}
 		}
 		// the writer saw every write committed to its tables earlier
